@@ -254,7 +254,9 @@ func genReqCase(r *core.Rand) string {
 var ipPieces = []string{"10.1.2.3", "192.168.77.201", "10.1.2.3:8080", "2001:db8:aa:bb::cd", "[2001:db8:aa:bb::cd]:443", "fe80::1%eth0",
 	"[fe80::abcd:1%eth0]:80", "::ffff:10.9.8.7", "010.001.002.003", " 10.7.7.7 ", "\t172.16.5.4", "unknown", "", "10.1.2.3:", ":80",
 	"1.2.3", "[::1]", "::1", "0.0.0.0", "255.255.255.255", "10.0.0.0", "2001:db8::", "example.com:80", "10.1.2.3%eth0", "１0.1.2.3",
-	" 10.2.3.4 ", "[10.1.2.3]:80", "fe80::1%25eth0", "1.2.3.4:5:6"}
+	" 10.2.3.4 ", "[10.1.2.3]:80", "fe80::1%25eth0", "1.2.3.4:5:6",
+	// Unicode white space strings.TrimSpace removes (and bytes that only look like it)
+	"\u00a010.1.2.3\u2003", "\u300010.4.5.6", "10.1.2.3\u0085", "\u205f\u16802001:db8::7\u2028\u2029", "\xc210.1.2.3", "10.1.2.3\xe2\x80", "\u200b10.1.2.3"}
 
 var v4raws = []int{0, 8, 16, 24, 32, 33, -1, 5, 13, 31, 1}
 var v6raws = []int{0, 32, 64, 128, 129, 48, 7, -5, 127, 1}
@@ -349,6 +351,10 @@ func genActs(r *core.Rand, names []string) []act {
 var cookieNames = []string{"sid", "del", "hsh", "x", "theme"}
 
 func genCookieLine(r *core.Rand) string {
+	if r.Chance(1, 6) {
+		// a Set-Cookie line (the cookie filter is also put on resp_headers>Set-Cookie): attributes look like cookies
+		return r.Pick(cookieNames) + "=" + newToken(r) + r.Pick([]string{"; Path=/; HttpOnly", "; Domain=a.test; Secure; SameSite=Lax", "; Expires=Wed, 21 Oct 2026 07:28:00 GMT", "; Max-Age=3600; Path=/x y"})
+	}
 	var ps []string
 	for i := r.Intn(4); i > 0; i-- {
 		n := r.Pick(cookieNames)
